@@ -273,6 +273,16 @@ def run_c10(exe, groups, r, n, dbg=True):
                         viol.append(V("C10", group, op, "assign", ["m"], lm, "assignment between views behaves differently from assignment between owning objects (destination buffer not written, or the view re-seated): owning %s… view %s…" % (ro[:60], rm[:60])))
                     elif not ro.startswith(want):
                         viol.append(V("C10", group, op, "assign-value", ["o"], lo, "assignment did not copy the source coefficients"))
+                # a view assigned from an expression that reads its own buffer behaves like an owning tangent
+                for op in ("exprt_selfprod", "exprt_selfprod_cv", "exprt_selfsum", "exprt_selfscale"):
+                    lo, lm = gen.req(dbg, "o", group, op, 0, t_), gen.req(dbg, "m", group, op, 0, t_)
+                    ro, rm = H.ask(lo), H.ask(lm)
+                    lines += [lo, lm]
+                    cells.add((group, op, "assign-expr"))
+                    if "guard_zone_overwritten" in rm:
+                        viol.append(V("C10", group, op, "guard", ["m"], lm, "assignment of an expression to a view wrote outside the viewed coefficients"))
+                    elif ro != rm:
+                        viol.append(V("C10", group, op, "assign-expr", ["m"], lm, "a tangent view assigned from an expression over its own coefficients differs from the owning tangent: owning %s… view %s…" % (ro[:60], rm[:60])))
         for line, rc in H.crashes:
             t = line.split()
             viol.append(V("C10", t[2], t[3], "crash", [t[1], "rc=%s" % rc], line, "the process died on this request (signal/abort %s): view operands must work on any buffer of scalars" % rc))
